@@ -1035,7 +1035,11 @@ impl Iterator for ExpandIncludeFile<'_> {
             {
                 return Some(arg);
             }
-            let new_args = contents.split_whitespace().collect::<Vec<_>>();
+            // gcc separates options at ASCII white space only (ISSPACE).
+            let new_args = contents
+                .split(|c| matches!(c, ' ' | '\t' | '\n' | '\x0b' | '\x0c' | '\r'))
+                .filter(|s| !s.is_empty())
+                .collect::<Vec<_>>();
             self.stack.extend(new_args.iter().rev().map(|s| s.into()));
         }
     }
